@@ -14,7 +14,7 @@ pub fn prop() -> Prop {
     Prop {
         id: "C07",
         level: "exploration",
-        rule: "(1) every expression tree of depth <= D over the 13 infix operators and `=` with leaves {a, 1} printed with minimal parentheses from the documented precedence table; (2) calls, indexing and prefix operators in every operand position of every operator; (2b) `als`, `zolang` and `functie` expressions without parentheses as the left and right operand of every operator and (function literals) as the target of a call, in 16 statement and expression contexts (an expression does not end at its closing brace); (2c) length ladders: N blocks / branches / loops / function definitions / parenthesised, bracketed and call expressions one AFTER the other, chains of N operands (one operator; two alternating levels), N elements / arguments / statements, N-deep parentheses, prefix operators, parenthesised assignments and else-if chains, N around every power of two up to 1025 (8193 thorough; deep forms up to 300); (3) every statement tree of the ctrl/fun/mix/heap slices up to N nodes, plain and with `anders als` / `op=` sugar; (3b) every such program of at most 9 tokens written 130 (thorough also 1 100) times one after the other, plain and with sugar: the tree is 130 copies; (4) every `a op= e` for e of depth <= 2 and every else-if chain up to length 3; (5) layout: for a base set of programs every rendering that changes <= d gaps to each alternative separator (each of the 11 white-space code points, a line comment, nothing where maximal munch allows, optional `;` and `,` dropped) and every single redundant parenthesisation. Oracle: the tree returned by the real parser equals the generated tree. Non-trivial = the rendering differs from the default rendering of a smaller case or contains at least two operators/constructs; distinct = distinct texts",
+        rule: "(1) every expression tree of depth <= D over the 13 infix operators and `=` with leaves {a, 1} printed with minimal parentheses from the documented precedence table; (2) calls, indexing and prefix operators in every operand position of every operator; (2b) `als`, `zolang` and `functie` expressions without parentheses as the left and right operand of every operator and (function literals) as the target of a call, in 16 statement and expression contexts (an expression does not end at its closing brace); (2c) length ladders: N blocks / branches / loops / function definitions / parenthesised, bracketed and call expressions one AFTER the other, chains of N operands (one operator; two alternating levels), N elements / arguments / statements, N-deep parentheses, prefix operators, parenthesised assignments and else-if chains, N around every power of two up to 1025 (8193 thorough; deep forms up to 300); (3) every statement tree of the ctrl/fun/mix/heap slices up to N nodes, plain and with `anders als` / `op=` sugar; (2d) prefix operators in front of literals of every magnitude (the non-negative integer lattice up to the largest integer, five floats) with and without a blank or parentheses, in seven operand positions; (3b) every such program of at most 9 tokens written 130 (thorough also 1 100) times one after the other, plain and with sugar: the tree is 130 copies; (4) every `a op= e` for e of depth <= 2 and every else-if chain up to length 3; (5) layout: for a base set of programs every rendering that changes <= d gaps to each alternative separator (each of the 11 white-space code points, a line comment, nothing where maximal munch allows, optional `;` and `,` dropped) and every single redundant parenthesisation. Oracle: the tree returned by the real parser equals the generated tree. Non-trivial = the rendering differs from the default rendering of a smaller case or contains at least two operators/constructs; distinct = distinct texts",
         assumptions: &[
             "the printer's precedence table (printer::prec) is the documented one: * / % > + - > < <= > >= > == != > && || > =",
             "prefix operands are always parenthesised unless atomic (U13)",
@@ -424,6 +424,7 @@ fn run(sh: &mut Shard) {
     // expression does not end at its closing brace
     compound_operand_family(sh);
     chain_ladder(sh);
+    literal_operands(sh);
     // (4) op-assign sugar and else-if chains
     let mut sugar_ops = ARITH_OPS.to_vec();
     sugar_ops.extend(CMP_OPS.iter().cloned());
@@ -552,6 +553,34 @@ fn case_or_too_deep(sh: &mut Shard, family: &str, text: &str, tree: &[Stmt], may
 }
 
 const REPEAT_MAX_TOKENS: usize = 9;
+
+/// Prefix operators in front of LITERALS of every magnitude (the whole non-negative integer lattice up to the
+/// largest integer, floats): a sign is an operator applied to the literal, never part of it, whatever the value,
+/// with and without a blank or parentheses in between, in every operand position.
+fn literal_operands(sh: &mut Shard) {
+    let lat = super::c06::lattice(sh.cfg.tier, sh.cfg.seed);
+    let mut lits: Vec<(String, Expr)> = lat.iter().filter(|v| **v >= 0).map(|v| (v.to_string(), Expr::Int { value: *v as isize })).collect();
+    for f in ["0.0", "1.5", "0.30000000000000004", "1152921504606846976.0", "123456789012345678901234567890.5"] {
+        lits.push((f.to_string(), Expr::Float { value: f.parse().unwrap() }));
+    }
+    for (text, lit) in &lits {
+        for (opt, op) in [("-", Operator::Subtract), ("!", Operator::Not)] {
+            let p = prefix(op.clone(), lit.clone());
+            for t in [format!("{opt}{text}"), format!("{opt} {text}"), format!("{opt}({text})"), format!("({opt}{text})"), format!("{opt} ( {text} )")] {
+                case(sh, "literal-operands", &t, &[es(p.clone())], true);
+            }
+            case(sh, "literal-operands", &format!("{opt}{opt}{text}").replace("--", "- -"), &[es(prefix(op.clone(), p.clone()))], true);
+            case(sh, "literal-operands", &format!("a + {opt}{text}"), &[es(infix(id("a"), Operator::Add, p.clone()))], true);
+            case(sh, "literal-operands", &format!("a == {opt}{text}"), &[es(infix(id("a"), Operator::Eq, p.clone()))], true);
+            case(sh, "literal-operands", &format!("[{opt}{text}, {opt}{text}]"), &[es(array(vec![p.clone(), p.clone()]))], true);
+            case(sh, "literal-operands", &format!("f({opt}{text})"), &[es(calln("f", vec![p.clone()]))], true);
+            case(sh, "literal-operands", &format!("stel x = {opt}{text}"), &[let_("x", p.clone())], true);
+            case(sh, "literal-operands", &format!("a = {opt}{text}"), &[es(assign(id("a"), p.clone()))], true);
+        }
+        case(sh, "literal-operands", &format!("a - {text}"), &[es(infix(id("a"), Operator::Subtract, lit.clone()))], true);
+        case(sh, "literal-operands", &format!("{text} - {text}"), &[es(infix(lit.clone(), Operator::Subtract, lit.clone()))], true);
+    }
+}
 
 fn chain_ladder(sh: &mut Shard) {
     let tier = sh.cfg.tier;
@@ -789,7 +818,7 @@ fn vacuity(m: &Merged) -> Option<String> {
             }
         }
     }
-    for fam in ["trees", "postfix", "compound-operand", "chain-ladder", "op-assign", "else-if", "layout-1", "parens-1", "slice-ctrl", "slice-fun", "repeated"] {
+    for fam in ["trees", "postfix", "compound-operand", "chain-ladder", "op-assign", "else-if", "layout-1", "parens-1", "slice-ctrl", "slice-fun", "repeated", "literal-operands"] {
         if m.counters.get(&format!("family:{fam}")).copied().unwrap_or(0) == 0 {
             return Some(format!("family {fam} produced no case"));
         }
